@@ -8,6 +8,7 @@
 //     MISMATCH {"site":"...","kind":"...","detail":"...","case":k}
 // (at most a few per signature; all are counted).  The run ends with  SUMMARY {...}.
 #pragma once
+#include <sys/time.h>
 #include <nlohmann/json.hpp>
 #include <csignal>
 #include <cstdio>
@@ -41,8 +42,15 @@ inline void crash_line(const char* why) {
 	if (n > 0) { ssize_t r = write(1, buf, (size_t)n); (void)r; }
 }
 inline void on_signal(int sig) {
-	crash_line(sig == SIGALRM ? "watchdog" : sig == SIGXFSZ ? "file-size-limit" : "signal");
-	_exit(sig == SIGALRM ? 124 : 128 + sig);
+	const bool timer = sig == SIGALRM || sig == SIGPROF;
+	crash_line(timer ? "watchdog" : sig == SIGXFSZ ? "file-size-limit" : "signal");
+	_exit(timer ? 124 : 128 + sig);
+}
+// "always returns": the limit is on the CPU time the process consumes (ITIMER_PROF), so that a loaded machine cannot turn a slow but
+// terminating call into an alarm; a generous wall-clock alarm stays behind it for calls that block without consuming anything
+inline void watchdog(unsigned seconds) {
+	struct itimerval t; memset(&t, 0, sizeof t); t.it_value.tv_sec = seconds; setitimer(ITIMER_PROF, &t, nullptr);
+	alarm(seconds ? seconds * 30 + 60 : 0);
 }
 inline void sanitize(char* dst, size_t cap, const std::string& s) {
 	size_t j = 0;
@@ -55,7 +63,7 @@ inline void init(int argc, char** argv) {
 		if (!strcmp(argv[i], "--seed")) g_seed = strtoull(argv[i + 1], nullptr, 10);
 		if (!strcmp(argv[i], "--watchdog")) g_watchdog_s = atoi(argv[i + 1]);
 	}
-	for (int s : {SIGSEGV, SIGBUS, SIGFPE, SIGILL, SIGABRT, SIGALRM, SIGXFSZ}) signal(s, on_signal);
+	for (int s : {SIGSEGV, SIGBUS, SIGFPE, SIGILL, SIGABRT, SIGALRM, SIGPROF, SIGXFSZ}) signal(s, on_signal);
 	std::cout.setf(std::ios::unitbuf);
 }
 // returns false if the case is to be skipped (below --start)
@@ -64,7 +72,7 @@ inline bool begin_case(long long k, const std::string& site, const std::string& 
 	g_case = k;
 	sanitize(g_site, sizeof g_site, site);
 	sanitize(g_detail, sizeof g_detail, detail);
-	alarm((unsigned)g_watchdog_s);
+	watchdog((unsigned)g_watchdog_s);
 	return true;
 }
 // cheap variant for hot loops: caller guarantees site/detail buffers were filled by fill_* below
@@ -75,7 +83,7 @@ inline void mismatch(const std::string& site, const std::string& kind, const std
 	if (c++ < 3) std::cout << "MISMATCH " << json{{"site", site}, {"kind", kind}, {"detail", detail}, {"case", g_case}}.dump() << std::endl;
 }
 inline void summary(json j) {
-	alarm(0);
+	watchdog(0);
 	j["mismatches"] = g_mismatches;
 	json sc = json::object();
 	for (auto& kv : g_sigCount) sc[kv.first] = kv.second;
